@@ -133,7 +133,7 @@ def check_refile(res, prop, cm, roles, m, b):
                     ok, why = False, 'new entry is not appended at the back of the ttl list'
                 elif add[0].key != dl.val if False else False:
                     pass
-        elif prop in ('C04', 'C05', 'C10') and typeclass(cm.field_by_name[aux].type) != 'multimap':
+        elif prop in ('C03', 'C04', 'C05', 'C10') and typeclass(cm.field_by_name[aux].type) != 'multimap':
             pass     # no keyed ttl structure: lookups and removal guards read the entry's own deadline (order is C16/C17's concern)
         else:
             adds = [e for e in effs if e.kind == 'AUX_ADD' and e.aux == aux]
@@ -414,6 +414,20 @@ def rule_c16(an, res):
     for cm, roles in an.classes(TTL_CACHES):
         check_ord_witness_A(an, res, prop, cm, roles)
         aux = roles.ttl_struct
+        # the ttl structure holds exactly the bound slots: a clear() must empty it together with the index
+        for m in an.entry_points(cm):
+            if ops.kind_of(m) != 'CLEAR':
+                continue
+            for top in method_segments(an, cm, roles, m):
+                effs = top.state_effects()
+                if not any(e.kind == 'INDEX_OP' and e.name == 'clear' for e in effs):
+                    continue
+                ok = any(e.kind == 'AUX_OP' and e.aux == aux and e.name == 'clear' for e in effs)
+                res.ob('R-TTL-MIRRORS-INDEX', ok=ok)
+                if not ok:
+                    V(res, prop, 'R-TTL-MIRRORS-INDEX', cm, m.key(), 'clear() empties the index but leaves entries in the ttl structure',
+                      first_site(effs, top, m), 'stale ttl entries stay at the head of %s and name slots that later inserts recycle, so the '
+                      'expired-first test reads another entry\'s deadline' % aux)
         for m in an.entry_points(cm):
             k = ops.kind_of(m)
             for top in method_segments(an, cm, roles, m, res):
